@@ -21,11 +21,16 @@
 /* ghost index for "for all k" loop invariants: a global the code never assigns */
 extern size_t verif_gk;
 /* ghost record of the entropy gateway (set only by the contract that replaces rand_bytes) */
-extern int verif_rb_fail; extern unsigned verif_rb_calls; extern const void *verif_rb_buf; extern size_t verif_rb_len;
+extern int verif_rb_fail; extern unsigned verif_rb_calls; extern size_t verif_rb_buf; extern size_t verif_rb_len;
 /* ghost record of the nonce source (set only by the contract that replaces sm2_z256_rand_range / sm9_z256_rand_range) */
 extern uint64_t verif_k_drawn[4]; extern unsigned verif_rand_calls; extern int verif_rand_fail;
 /* ghost record of certificate-extension checks (set only by replaced contracts in x509 proofs) */
 extern unsigned verif_x_bc_calls; extern int verif_x_bc_last_ca; extern int verif_x_bc_last_ret; extern int verif_x_unknown_critical;
+/* ghost record of certificate-chain verification (set only by replaced contracts in x509 proofs); verif_c_ci is a free index */
+extern unsigned verif_c_ci; extern unsigned verif_c_chk_calls; extern int verif_c_chk_type0; extern int verif_c_chk_type1;
+extern int verif_c_chk_nonca; extern int verif_c_plc_ci; extern size_t verif_c_chk_last; extern size_t verif_c_chk_first;
+extern size_t verif_c_chk_second;
+extern unsigned verif_c_vfy_calls; extern int verif_c_vfy_bad; extern size_t verif_c_vfy_prev_parent;
 #else
 # define VERIF_LOOP_ASSIGNS(...)
 # define VERIF_LOOP_INVARIANT(...)
